@@ -47,6 +47,7 @@ static long g_over;            /* bytes of canary zone touched (max extent) sinc
 static int g_asan_hit;
 static int g_asan_total;   /* after a few reports the canaries alone observe (ASan reports are slow) */
 static char g_asan_msg[1600];
+static uint8_t *g_last_slack;   /* canary zone of the most recent guarded block = the active output buffer */
 
 struct ps_hdr { size_t n; size_t pad; };   /* 16 bytes: data stays 16-aligned */
 
@@ -59,6 +60,7 @@ static void *ps_alloc(size_t n)
     d = (uint8_t *)(h + 1);
     memset(d + n, PS_CANARY, PS_SLACK);
     if (g_asan_total < 6) __asan_poison_memory_region(d + n, PS_SLACK);
+    g_last_slack = d + n;
     return d;
 }
 static void ps_scan(void *p)
@@ -72,6 +74,7 @@ static void ps_free(void *p)
 {
     if (!p) return;
     ps_scan(p);
+    if (g_last_slack == (uint8_t *)p + ((struct ps_hdr *)p - 1)->n) g_last_slack = 0;
     free((struct ps_hdr *)p - 1);
 }
 static void *ps_realloc(void *p, size_t n)
@@ -101,6 +104,8 @@ static void on_asan(const char *msg)
 {
     if (!g_asan_hit) { strncpy(g_asan_msg, msg, sizeof(g_asan_msg) - 1); g_asan_msg[sizeof(g_asan_msg) - 1] = 0; }
     g_asan_hit++; g_asan_total++;
+    /* one report per print is enough: the canaries record the extent of the remaining stores (reports cost CPU time) */
+    if (g_last_slack) __asan_unpoison_memory_region(g_last_slack, PS_SLACK);
 }
 #endif
 
@@ -125,7 +130,7 @@ static void on_alarm(int s) { (void)s; if (g_armed) { g_armed = 0; siglongjmp(g_
 /* CPU time of this process, not wall clock: a loaded machine must not look like a printer that does not return */
 static void arm(long ms) { struct itimerval it; memset(&it, 0, sizeof(it)); it.it_value.tv_sec = ms / 1000; it.it_value.tv_usec = (ms % 1000) * 1000; g_armed = 1; setitimer(ITIMER_PROF, &it, 0); }
 static void disarm(void) { struct itimerval it; memset(&it, 0, sizeof(it)); g_armed = 0; setitimer(ITIMER_PROF, &it, 0); }
-static long g_timeout_ms = 400;
+static long g_timeout_ms = 1000;
 
 /* ---------------------------------------------------------------- state */
 static void *g_fb; static size_t g_fbsz;            /* current flatbuffer */
